@@ -9,6 +9,9 @@ give back exactly the model.
 Sub-checks (different generator domains, so that one defect does not hide the others):
   placement  all limits / archive indexes / sizes up to 300 KiB, simple names
   names      rich ASCII names in all three spellings, placement restricted to numbered archives + small data
+             (placement and names: every operation and every lookup also in the NON-CANONICAL spellings of the folder
+             part - trailing '/', leading './', backslashes, '.', doubled separators - in the str, 2-tuple and 3-tuple
+             forms; bulk entry points add_folder(<folder spelling>, <prefix>) from a disk tree and extract_all())
   readonly   an archive built in the safe domain, then every mutating call on a mode-'r' object
   failed     histories with mutations that must fail (duplicate add, delete of a missing file, non-ASCII name,
              archive file that cannot be opened) interleaved with successful ones
@@ -33,7 +36,9 @@ LEVEL = 'exploration'
 RULE = (
     'Hypothesis generates command histories (<= 12 commands quick / 20 thorough) over open(mode r/w/a, dir_data_limit '
     'None/0/1/7/1024/70000, end by write_dirfile / with-exit / abandon), add_file, new_file(+write), overwrite, del, '
-    'write_dirfile on a directory (x_dir.vpk) or single-file (x.vpk) archive in a scratch directory; data are '
+    'add_folder (disk tree built from the name pool; folder argument plain / trailing separator / "./" inside / relative; '
+    '6 prefixes), extract_all, each name in one of 28 spellings (str / 2-tuple / 3-tuple / 3-tuple with the extension '
+    'left in the name x 7 spellings of the folder part), write_dirfile on a directory (x_dir.vpk) or single-file (x.vpk) archive in a scratch directory; data are '
     '{len, seed} descriptors expanded with SHAKE-256, sizes 0..300 KiB concentrated around the limits and 64 KiB; '
     'non-trivial (placement) = some file is split between preload and archive data AND an overwrite or delete was '
     'committed and re-read by a fresh VPK; (names) = a name with an empty/dotted component was committed; '
@@ -46,6 +51,11 @@ ASSUMPTIONS = [
     'no name component (folder, stem, extension) is a single space - the format itself uses " " to encode "empty"',
     'the extension is what follows the last dot of the file name: it contains no dot, the file name is non-empty and '
     'does not end with a dot (such names have no distinct 3-tuple form)',
+    'non-canonical folder spellings are only the ones srctools itself maps to the same folder on POSIX (trailing "/" '
+    'or "\\", leading "./", "/." at the end, doubled "/", "\\" as separator, "." / "./" for the root); a leading "/" '
+    'or ".\\" names a different folder in the unchanged tree and is not generated',
+    'add_folder never meets an already existing name (it would stop half-way in os.walk() order) and no file path of '
+    'the source tree is also a directory; extract_all is only compared when the model has no such file/directory clash',
     'version 1 archives only (writing v2 is documented as unsupported); archive indexes None/0/1/5/42/999',
     'a session opened with mode "w", or "a" on a missing file, always ends with write_dirfile/exit (VPK() itself '
     'leaves a 0-byte directory file until then; the statement only speaks about the state after writing the directory)',
@@ -1196,12 +1206,18 @@ SUBCHECKS = [
         must_hit=('base:ends_in_dir_chars', 'loc:preload', 'loc:tail', 'loc:numbered', 'loc:single-preload', 'loc:single-tail', 'split',
                   'size>=64k', 'limit:none', 'limit:over64k', 'loc:tail|lim:none', 'loc:numbered|lim:over64k',
                   'op:add', 'op:new', 'op:over', 'op:del', 'open:w', 'open:a', 'open:r',
-                  'end:write', 'end:exit', 'end:abandon', 'arch:None', 'arch:dflt', 'arch:999')),
+                  'end:write', 'end:exit', 'end:abandon', 'arch:None', 'arch:dflt', 'arch:999',
+                  'op:add_folder', 'addfolder:trail_sep+subfolders', 'addfolder:prefix', 'addfolder:no_prefix',
+                  'addfolder:nested_subfolders', 'addfolder:toplevel_file', 'addfolder:arg_relative', 'extract_all',
+                  'noncanonical:pair', 'noncanonical:triple')),
     Sub('names', execute_names, strategy=names_strategy, quick=1200, thorough=30000, floor=50,
         quick_shards=4, thorough_shards=16,
         must_hit=('name:empty_folder', 'name:empty_ext', 'name:empty_stem', 'name:dotted_stem', 'name:nested_folder',
-                  'name:space', 'spelling:str', 'spelling:pair', 'spelling:triple', 'op:over', 'op:del',
-                  'loc:numbered', 'loc:preload', 'loc:single-preload')),
+                  'name:space', 'spelling:str', 'spelling:pair', 'spelling:triple', 'spelling:triple_unsplit',
+                  'op:over', 'op:del', 'loc:numbered', 'loc:preload', 'loc:single-preload',
+                  'noncanonical:str', 'noncanonical:pair', 'noncanonical:triple') +
+                 tuple('folderspelling:' + v for v in FOLDER_VARIANTS[1:]) +
+                 ('op:add_folder', 'addfolder:trail_sep+subfolders', 'addfolder:prefix', 'extract_all')),
     Sub('readonly', execute_readonly, strategy=readonly_strategy, quick=600, thorough=12000, floor=50,
         quick_shards=2, thorough_shards=8,
         must_hit=tuple('ro:' + k for k in RO_MUTATIONS) + ('missing_file',)),
